@@ -114,20 +114,14 @@ class _T(ast.NodeTransformer):
             # building (f-strings, %, .format) is dropped - it would concretise symbolic values
             keep = []
             for a in node.args:
-                if isinstance(a, (ast.Constant, ast.JoinedStr, ast.Name)):
-                    continue
-                if isinstance(a, ast.BinOp) and isinstance(a.op, ast.Mod):
-                    continue
-                if (isinstance(a, ast.Call) and isinstance(a.func, ast.Attribute) and a.func.attr == "format"):
+                if isinstance(a, (ast.Constant, ast.JoinedStr, ast.Name, ast.BinOp)):
                     continue
                 if isinstance(a, ast.Call):
                     fn = a.func
                     name = fn.id if isinstance(fn, ast.Name) else (fn.attr if isinstance(fn, ast.Attribute) else "")
                     if name in ("str", "repr", "hex", "bin", "oct", "format", "join", "ascii"):
                         continue
-                    keep.append(self.visit(a))
-                elif isinstance(a, (ast.Subscript, ast.Attribute)):
-                    keep.append(self.visit(a))
+                keep.append(self.visit(a))
             if not keep:
                 return ast.copy_location(ast.Constant(None), node)
             return ast.copy_location(ast.Tuple(elts=keep, ctx=ast.Load()), node)
@@ -524,6 +518,7 @@ def install():
     if not PLAIN:
         sys.meta_path.insert(0, _Finder())
     import logging
-    logging.getLogger("geckolib").setLevel(logging.CRITICAL)
+    # debug logging on (and swallowed): blocks guarded by isEnabledFor(DEBUG) are part of what users run
+    logging.getLogger("geckolib").setLevel(logging.DEBUG)
     logging.getLogger("geckolib").addHandler(logging.NullHandler())
     logging.getLogger("geckolib").propagate = False
